@@ -1,120 +1,34 @@
-(* C16/Proofs6.v -- decidable versions of the side conditions (used to show, by computation, that the
-   hypotheses of the theorems are satisfiable by non-trivial histories). *)
+(* C16/Proofs6.v -- decidable version of the side condition of the history theorems (every host handed to
+   the ring has a usable connect address), used to show by computation that it holds on concrete histories. *)
 From GocqlV Require Import Lib.Base C16.ZMap C16.Model C16.Spec C16.Proofs1 C16.Proofs2 C16.Proofs3 C16.Proofs4.
 
-Fixpoint nodupb (l : list Z) : bool :=
-  match l with [] => true | x :: tl => negb (zmem x tl) && nodupb tl end.
+Definition validb (hs : list hostinfo) : bool := forallb (fun h => negb (invalid_connect_addr h)) hs.
 
-Lemma nodupb_sound l : nodupb l = true -> NoDup l.
+Lemma validb_sound hs : validb hs = true -> hosts_valid hs.
 Proof.
-  induction l as [|x tl IH]; simpl; intros H; [constructor|].
-  apply andb_true_iff in H. destruct H as [H1 H2]. constructor; [|auto].
-  apply zmem_false. destruct (zmem x tl); [discriminate | reflexivity].
+  unfold validb, hosts_valid. rewrite forallb_forall. intros H h Hh. specialize (H _ Hh).
+  destruct (invalid_connect_addr h); [discriminate | reflexivity].
 Qed.
 
-Definition remove_okb (r : ring) (id : Z) : bool :=
-  match mget id (hosts r) with
-  | None => true
-  | Some h => forallb (fun kv => (fst kv =? id) || negb (n2n_key (snd kv) =? n2n_key h)) (hosts r)
-  end.
-
-Lemma remove_okb_sound r id : remove_okb r id = true -> remove_ok r id.
-Proof.
-  unfold remove_okb, remove_ok. intros H h Hh. rewrite Hh in H. rewrite forallb_forall in H.
-  intros id2 h2 Hh2 Hne. apply mget_In in Hh2. specialize (H _ Hh2). simpl in H. lia.
-Qed.
-
-Definition update_okb (r : ring) (h : hostinfo) : bool :=
-  match mget (h_id h) (hosts r) with
-  | None => true
-  | Some e => n2n_key (update e h) =? n2n_key e
-  end.
-
-Lemma update_okb_sound r h : update_okb r h = true -> update_ok r h.
-Proof. unfold update_okb, update_ok. intros H e He. rewrite He in H. lia. Qed.
-
-Definition op_okb (r : ring) (o : rop) : bool :=
-  match o with OAddIfMissing _ => true | OAddOrUpdate h => update_okb r h | ORemove id => remove_okb r id end.
-
-Fixpoint ops_okb (r : ring) (ops : list rop) : bool :=
-  match ops with [] => true | o :: tl => op_okb r o && ops_okb (fst (ring_step r o)) tl end.
-
-Lemma ops_okb_sound : forall ops r, ops_okb r ops = true -> ops_ok r ops.
-Proof.
-  induction ops as [|o tl IH]; intros r H; simpl in *; [exact I|].
-  apply andb_true_iff in H. destruct H as [H1 H2]. split; [|apply IH; exact H2].
-  destruct o; simpl in *; [exact I | apply update_okb_sound; exact H1 | apply remove_okb_sound; exact H1].
-Qed.
-
-Definition add_okb (r : ring) (h : hostinfo) : bool :=
-  negb (invalid_connect_addr h) &&
-  match mget (h_id h) (hosts r) with
-  | Some e => n2n_key (update e h) =? n2n_key e
-  | None => forallb (fun kv => negb (n2n_key (snd kv) =? n2n_key h)) (hosts r)
-  end.
-
-Lemma add_okb_sound r h : add_okb r h = true -> add_ok r h.
-Proof.
-  unfold add_okb, add_ok. intros H. apply andb_true_iff in H. destruct H as [H1 H2].
-  split; [destruct (invalid_connect_addr h); [discriminate | reflexivity]|].
-  destruct (mget (h_id h) (hosts r)); [lia|]. rewrite forallb_forall in H2.
-  intros id x Hx. apply mget_In in Hx. specialize (H2 _ Hx). simpl in H2. lia.
-Qed.
-
-Definition report_okb (c : cfg) (r0 : ring) (report : list hostinfo) : bool :=
-  let A := accepted c report in
-  forallb (fun h => negb (invalid_connect_addr h)) A
-  && nodupb (map h_id A)
-  && forallb (fun h => forallb (fun kv => negb (n2n_key (snd kv) =? n2n_key h) || (fst kv =? h_id h)) (hosts r0)) A
-  && forallb (fun h1 => forallb (fun h2 => negb (n2n_key h1 =? n2n_key h2) || (h_id h1 =? h_id h2)) A) A.
-
-Lemma report_okb_sound c r0 report : report_okb c r0 report = true -> report_ok c r0 report.
-Proof.
-  unfold report_okb. intros H. repeat (apply andb_true_iff in H; destruct H as [H ?]).
-  rewrite forallb_forall in *. constructor.
-  - intros h Hh. specialize (H _ Hh). destruct (invalid_connect_addr h); [discriminate | reflexivity].
-  - apply nodupb_sound. assumption.
-  - intros h id e Hh He Hk. specialize (H1 _ Hh). rewrite forallb_forall in H1. apply mget_In in He.
-    specialize (H1 _ He). simpl in H1. lia.
-  - intros h1 h2 Hh1 Hh2 Hk. specialize (H0 _ Hh1). rewrite forallb_forall in H0. specialize (H0 _ Hh2). lia.
-Qed.
-
-Fixpoint init_okb (c : cfg) (s : sess) (hs : list hostinfo) : bool :=
-  match hs with
-  | [] => true
-  | h :: tl =>
-      add_okb (s_ring s) h &&
-      match add_or_update (s_ring s) h with
-      | Some (r', e) => init_okb c (let s1 := with_ring s r' in if accept c e then start_pool_fill s1 e else s1) tl
-      | None => true
-      end
-  end.
-
-Lemma init_okb_sound c : forall hs s, init_okb c s hs = true -> init_ok c s hs.
-Proof.
-  induction hs as [|h tl IH]; intros s H; simpl in *; [exact I|].
-  apply andb_true_iff in H. destruct H as [H1 H2]. split; [apply add_okb_sound; exact H1|].
-  destruct (add_or_update (s_ring s) h) as [[r' e]|]; [apply IH; exact H2 | exact I].
-Qed.
-
-Definition label_okb (c : cfg) (s : sess) (l : label) : bool :=
+Definition label_okb (c : cfg) (l : label) : bool :=
   match l with
-  | LInit hs => init_okb c s hs
-  | LControl h => add_okb (s_ring s) h
-  | LRefresh report => report_okb c (s_ring s) report
+  | LInit hs => validb hs
+  | LControl h => negb (invalid_connect_addr h)
+  | LRefresh report => validb (accepted c report)
   | _ => true
   end.
 
-Fixpoint history_okb (c : cfg) (s : sess) (ls : list label) : bool :=
-  match ls with
-  | [] => true
-  | l :: tl => label_okb c s l && match step c s l with Some s' => history_okb c s' tl | None => true end
-  end.
+Lemma label_okb_sound c s l : label_okb c l = true -> label_ok c s l.
+Proof.
+  destruct l; simpl; intros H; try exact I.
+  - apply validb_sound. exact H.
+  - destruct (invalid_connect_addr h); [discriminate | reflexivity].
+  - apply validb_sound. exact H.
+Qed.
 
-Lemma history_okb_sound c : forall ls s, history_okb c s ls = true -> history_ok c s ls.
+Lemma history_okb_sound c : forall ls s, forallb (label_okb c) ls = true -> history_ok c s ls.
 Proof.
   induction ls as [|l tl IH]; intros s H; simpl in *; [exact I|].
-  apply andb_true_iff in H. destruct H as [H1 H2]. split.
-  - destruct l; simpl in *; try exact I; [apply init_okb_sound | apply add_okb_sound | apply report_okb_sound]; exact H1.
-  - destruct (step c s l); [apply IH; exact H2 | exact I].
+  apply andb_true_iff in H. destruct H as [H1 H2]. split; [apply label_okb_sound; exact H1|].
+  destruct (step c s l); [apply IH; exact H2 | exact I].
 Qed.
